@@ -13,6 +13,9 @@ SHAPE_KEYS: set[tuple[str, str]] = {
     ("C15.R2", "operand-flow-unrecognised"),
     ("C19.R2", "duplicate-push-unrecognised"),
     ("C19.R2", "pop-guard-unrecognised"),
+    ("C24.R3", "meet-unrecognised"),
+    ("C25.R4", "run-loop-unrecognised"),
+    ("C24.R2", "preds-source-unrecognised"),
     ("C09.R2", "no-merge-result"),
     ("C09.R2", "merge-bookkeeping"),
     ("C09.R2", "unknown-result"),
